@@ -241,7 +241,7 @@ func c15Sequences(r *core.Run) {
 		mask string
 		soft bool
 	}
-	r.SetBound("sequences", "BFS depth 3 over {MaskedEqual(1), MaskedGreater(3), MaskedLess(3), MaskedInside(2,4), MaskedOutside(2,4), HardenMask, SoftenMask, ResetMask} from an unmasked tensor, states = (mask bits, softness)")
+	r.SetBound("sequences", "every sequence of 3 events (no merging of histories) over {MaskedEqual(1), MaskedGreater(3), MaskedLess(3), MaskedInside(2,4), MaskedOutside(2,4), HardenMask, SoftenMask, ResetMask} from an unmasked tensor, states = (mask bits, softness)")
 	if !r.Take() {
 		return
 	}
@@ -320,10 +320,10 @@ func c15Sequences(r *core.Run) {
 					}
 					k := fmt.Sprint(string(mask), soft)
 					r.State("seq|" + k)
-					if !seen[k] {
-						seen[k] = true
-						next = append(next, st{append(append([]ev{}, s.path...), e), string(mask), soft})
-					}
+					// no merging of histories that reach the same (mask, softness): whether the mask existed when the tensor
+					// was softened, for example, is real state the model does not show (8^3 sequences are cheap)
+					seen[k] = true
+					next = append(next, st{append(append([]ev{}, s.path...), e), string(mask), soft})
 				}
 				if len(fails) > 0 {
 					return core.F("wrong-mask", fmt.Sprintf("n%d", len(fails)), "%s", strings.Join(fails, " ; "))
